@@ -476,6 +476,7 @@ pub proof fn lemma_enter_effect(w: World, wf: World, l0: AssetLedger, amount_in:
             //@@ C05:lemma.enter_total_assets_is_vault_balance
             &&& amount_in != 0 ==> obs(w_auth(w, operator), wf, 0) as int == abal(l0, w.this)
             &&& shares >= 0
+            &&& w2.same_ledger(w)
         }),
 {
     let w1 = w_auth(w, operator);
@@ -593,6 +594,7 @@ pub proof fn lemma_deposit_rate(w: World, wf: World, l0: AssetLedger, assets: i1
             //@@ C05:step.deposit_shares_received_at_most_fair
             &&& shares * (abal(l0, w.this) + 1) <= assets * virt_shares(w)
             &&& abal(l1, w.this) == abal(l0, w.this) + assets && virt_shares(w2) == virt_shares(w) + shares
+            &&& inv(w2) && ledger_inv(l1) && (w.ledger_ok() ==> w2.ledger_ok())
         }),
 {
     lemma_enter_effect(w, wf, l0, assets, assets, shares, receiver, from, operator);
@@ -624,6 +626,7 @@ pub proof fn lemma_mint_rate(w: World, wf: World, l0: AssetLedger, assets: i128,
             //@@ C05:step.mint_assets_paid_at_least_fair
             &&& assets * virt_shares(w) >= shares * (abal(l0, w.this) + 1)
             &&& abal(l1, w.this) == abal(l0, w.this) + assets && virt_shares(w2) == virt_shares(w) + shares
+            &&& inv(w2) && ledger_inv(l1) && (w.ledger_ok() ==> w2.ledger_ok())
         }),
 {
     lemma_enter_effect(w, wf, l0, shares, assets, shares, receiver, from, operator);
@@ -766,4 +769,201 @@ pub proof fn lemma_withdraw_rate(w: World, wf: World, l0: AssetLedger, assets: i
     let w2 = withdraw_post(w, wf, assets, shares, receiver, owner, operator);
     lemma_store_frame(wi, w2);
     lemma_rate_exit_arith(assets as int, out_of_vault(this, receiver, assets), ap, sp, shares as int);
+}
+
+// =================================================================================================
+// Part 4 — history: along every trace of vault operations, share-token operations that create no shares,
+// arbitrary other activity on the asset token that does not take assets out of the vault's balance
+// (donations included) and ledger advances, the rate (A+1)/(S+10^off) never decreases.
+// State of the history = (world of the vault contract, SEP-41 ledger of the asset token).
+// Configuration (set_asset / set_decimals_offset) is constructor-only: it happens before the trace starts
+// (both functions are once-only, see contracts.vspec; a later first call of set_decimals_offset would change 10^off).
+// =================================================================================================
+pub struct VH { pub w: World, pub l: AssetLedger }
+pub enum VStep {
+    Deposit { wf: World, assets: i128, shares: i128, receiver: Address, from: Address, operator: Address },
+    Mint { wf: World, assets: i128, shares: i128, receiver: Address, from: Address, operator: Address },
+    Withdraw { wf: World, assets: i128, shares: i128, receiver: Address, owner: Address, operator: Address },
+    Redeem { wf: World, assets: i128, shares: i128, receiver: Address, owner: Address, operator: Address },
+    /// transfer / transfer_from / approve / burn / burn_from of the share token (anything but a raw mint)
+    ShareOp { op: FOp },
+    /// other activity on the asset token: holders transact among themselves, anybody donates to the vault.
+    /// Assets leave the vault's balance only through the vault's own `transfer` calls (SEP-41 requires the
+    /// holder's authorization or an allowance; the vault code never approves anybody)
+    AssetOther { l2: AssetLedger },
+    /// ledger advance / next invocation: the vault's instance and persistent stores are untouched
+    Frame { w2: World },
+}
+pub open spec fn vstep_ok(h: VH, st: VStep) -> bool {
+    let w = h.w;
+    match st {
+        VStep::Deposit { wf, assets, shares, receiver, from, operator } =>
+            from != w.this
+            && conv_shares_rel(w_auth(w, operator), wf, assets, Rounding::Floor, shares)
+            && enter_guard(w, wf, assets, receiver, shares, operator)
+            && aops_ok(h.l, enter_ops(w, wf, assets, assets, from, operator)),
+        VStep::Mint { wf, assets, shares, receiver, from, operator } =>
+            from != w.this
+            && conv_assets_rel(w_auth(w, operator), wf, shares, Rounding::Ceil, assets)
+            && enter_guard(w, wf, shares, receiver, shares, operator)
+            && aops_ok(h.l, enter_ops(w, wf, shares, assets, from, operator)),
+        VStep::Withdraw { wf, assets, shares, receiver, owner, operator } =>
+            conv_shares_rel(conv_post(w_auth(w, operator), wf, bal(w, owner) as i128), wf, assets, Rounding::Ceil, shares)
+            && withdraw_internal_guard(withdraw_mid(w, wf, assets, owner, operator), owner, shares, operator)
+            && aops_ok(h.l, exit_ops(withdraw_pre_ops(w, wf, assets, owner, operator), w.this, receiver, assets)),
+        VStep::Redeem { wf, assets, shares, receiver, owner, operator } =>
+            conv_assets_rel(w_auth(w, operator), wf, shares, Rounding::Floor, assets)
+            && withdraw_internal_guard(redeem_mid(w, wf, shares, operator), owner, shares, operator)
+            && aops_ok(h.l, exit_ops(redeem_pre_ops(w, wf, shares, operator), w.this, receiver, assets)),
+        VStep::ShareOp { op } => !(op is Mint) && op_guard(w, op),
+        VStep::AssetOther { l2 } => ledger_inv(l2) && abal(l2, w.this) >= abal(h.l, w.this),
+        VStep::Frame { w2 } => w2.persistent == w.persistent && w2.instance == w.instance && w2.this == w.this && w2.ledger_ok(),
+    }
+}
+pub open spec fn vstep_post(h: VH, st: VStep) -> VH {
+    let w = h.w;
+    match st {
+        VStep::Deposit { wf, assets, shares, receiver, from, operator } =>
+            VH { w: enter_post(w, wf, assets, assets, shares, receiver, from, operator), l: aops_run(h.l, enter_ops(w, wf, assets, assets, from, operator)) },
+        VStep::Mint { wf, assets, shares, receiver, from, operator } =>
+            VH { w: enter_post(w, wf, shares, assets, shares, receiver, from, operator), l: aops_run(h.l, enter_ops(w, wf, shares, assets, from, operator)) },
+        VStep::Withdraw { wf, assets, shares, receiver, owner, operator } =>
+            VH { w: withdraw_post(w, wf, assets, shares, receiver, owner, operator),
+                 l: aops_run(h.l, exit_ops(withdraw_pre_ops(w, wf, assets, owner, operator), w.this, receiver, assets)) },
+        VStep::Redeem { wf, assets, shares, receiver, owner, operator } =>
+            VH { w: redeem_post(w, wf, assets, shares, receiver, owner, operator),
+                 l: aops_run(h.l, exit_ops(redeem_pre_ops(w, wf, shares, operator), w.this, receiver, assets)) },
+        VStep::ShareOp { op } => VH { w: op_post(w, op), l: h.l },
+        VStep::AssetOther { l2 } => VH { w: w, l: l2 },
+        VStep::Frame { w2 } => VH { w: w2, l: h.l },
+    }
+}
+pub open spec fn vrun(h0: VH, steps: Seq<VStep>) -> VH
+    decreases steps.len()
+{
+    if steps.len() == 0 { h0 } else { vstep_post(vrun(h0, steps.drop_last()), steps.last()) }
+}
+pub open spec fn vvalid(h0: VH, steps: Seq<VStep>) -> bool
+    decreases steps.len()
+{
+    steps.len() == 0 || (vvalid(h0, steps.drop_last()) && vstep_ok(vrun(h0, steps.drop_last()), steps.last()))
+}
+pub open spec fn vh_inv(h: VH) -> bool { inv(h.w) && h.w.ledger_ok() && ledger_inv(h.l) }
+
+/// a share-token operation that is not a mint: invariant kept, supply not raised, configuration untouched
+pub proof fn lemma_share_op(w: World, op: FOp)
+    requires inv(w), w.ledger_ok(), op_guard(w, op), !(op is Mint),
+    ensures inv(op_post(w, op)), op_post(w, op).ledger_ok(), op_post(w, op).this == w.this,
+        0 <= supply(op_post(w, op)) <= supply(w),
+        //@@ C01+C05:lemma.share_transfers_do_not_change_supply
+        (op is Transfer || op is TransferFrom || op is Approve) ==> supply(op_post(w, op)) == supply(w),
+        cur_offset(op_post(w, op)) == cur_offset(w), cur_asset(op_post(w, op)) == cur_asset(w),
+{
+    lemma_op_shape(w, op);
+    lemma_op_pre(w, op);
+    let w1 = op_pre(w, op);
+    lemma_store_frame(w, w1);
+    if is_approve(op) {
+        lemma_store_frame(w1, op_post(w, op));
+    } else {
+        lemma_update_inv(w1, op_from(op), op_to(op), op_amount(op));
+        lemma_update_keeps_config(w1, op_from(op), op_to(op), op_amount(op));
+        let wu = update_post(w1, op_from(op), op_to(op), op_amount(op));
+        lemma_store_frame(wu, op_post(w, op));
+    }
+}
+
+pub proof fn lemma_vstep(h: VH, st: VStep)
+    requires vh_inv(h), vstep_ok(h, st),
+    ensures
+        vh_inv(vstep_post(h, st)),
+        //@@ C05:history.step_rate_not_lower
+        rate_step(h.w, h.l, vstep_post(h, st).w, vstep_post(h, st).l),
+        cur_offset(vstep_post(h, st).w) == cur_offset(h.w),
+        vstep_post(h, st).w.this == h.w.this,
+{
+    let w = h.w;
+    let l = h.l;
+    lemma_pow10(cur_offset(w) as nat);
+    assert(abal(l, w.this) >= 0);
+    let ap = abal(l, w.this) + 1;
+    let sp = virt_shares(w);
+    match st {
+        VStep::Deposit { wf, assets, shares, receiver, from, operator } => {
+            lemma_deposit_rate(w, wf, l, assets, shares, receiver, from, operator);
+            lemma_enter_effect(w, wf, l, assets, assets, shares, receiver, from, operator);
+        }
+        VStep::Mint { wf, assets, shares, receiver, from, operator } => {
+            lemma_mint_rate(w, wf, l, assets, shares, receiver, from, operator);
+            lemma_enter_effect(w, wf, l, shares, assets, shares, receiver, from, operator);
+        }
+        VStep::Withdraw { wf, assets, shares, receiver, owner, operator } => {
+            lemma_withdraw_rate(w, wf, l, assets, shares, receiver, owner, operator);
+            lemma_withdraw_config(w, wf, assets, shares, receiver, owner, operator);
+        }
+        VStep::Redeem { wf, assets, shares, receiver, owner, operator } => {
+            lemma_redeem_rate(w, wf, l, assets, shares, receiver, owner, operator);
+            lemma_redeem_config(w, wf, assets, shares, receiver, owner, operator);
+        }
+        VStep::ShareOp { op } => {
+            lemma_share_op(w, op);
+            let w2 = op_post(w, op);
+            let d = supply(w) - supply(w2);
+            assert(ap * (sp - d) <= ap * sp) by(nonlinear_arith) requires ap > 0, d >= 0;
+        }
+        VStep::AssetOther { l2 } => {
+            lemma_rate_donation(ap, sp, abal(l2, w.this) - abal(l, w.this));
+            assert(abal(l2, w.this) >= 0);
+        }
+        VStep::Frame { w2 } => {
+            lemma_store_frame(w, w2);
+        }
+    }
+}
+/// withdraw / redeem leave the vault configuration and identity alone
+pub proof fn lemma_withdraw_config(w: World, wf: World, assets: i128, shares: i128, receiver: Address, owner: Address, operator: Address)
+    ensures ({ let w2 = withdraw_post(w, wf, assets, shares, receiver, owner, operator);
+               cur_offset(w2) == cur_offset(wi_spent(withdraw_mid(w, wf, assets, owner, operator), owner, shares, operator)) && w2.this == wi_spent(withdraw_mid(w, wf, assets, owner, operator), owner, shares, operator).this }),
+{
+    let wm = withdraw_mid(w, wf, assets, owner, operator);
+    let ws = wi_spent(wm, owner, shares, operator);
+    lemma_update_keeps_config(ws, Some(owner), None, shares as int);
+    let wi = withdraw_internal_post(wm, wf, receiver, owner, assets, shares, operator);
+    lemma_store_frame(wi_burnt(wm, owner, shares, operator), wi);
+    lemma_store_frame(wi, withdraw_post(w, wf, assets, shares, receiver, owner, operator));
+}
+pub proof fn lemma_redeem_config(w: World, wf: World, assets: i128, shares: i128, receiver: Address, owner: Address, operator: Address)
+    ensures ({ let w2 = redeem_post(w, wf, assets, shares, receiver, owner, operator);
+               cur_offset(w2) == cur_offset(wi_spent(redeem_mid(w, wf, shares, operator), owner, shares, operator)) && w2.this == wi_spent(redeem_mid(w, wf, shares, operator), owner, shares, operator).this }),
+{
+    let wm = redeem_mid(w, wf, shares, operator);
+    let ws = wi_spent(wm, owner, shares, operator);
+    lemma_update_keeps_config(ws, Some(owner), None, shares as int);
+    let wi = withdraw_internal_post(wm, wf, receiver, owner, assets, shares, operator);
+    lemma_store_frame(wi_burnt(wm, owner, shares, operator), wi);
+    lemma_store_frame(wi, redeem_post(w, wf, assets, shares, receiver, owner, operator));
+}
+
+/// the history lemma of C05
+pub proof fn lemma_vhistory(h0: VH, steps: Seq<VStep>)
+    requires vh_inv(h0), vvalid(h0, steps),
+    ensures
+        vh_inv(vrun(h0, steps)),
+        cur_offset(vrun(h0, steps).w) == cur_offset(h0.w), vrun(h0, steps).w.this == h0.w.this,
+        //@@ C05:history.rate_never_decreases
+        rate_step(h0.w, h0.l, vrun(h0, steps).w, vrun(h0, steps).l),
+    decreases steps.len()
+{
+    lemma_pow10(cur_offset(h0.w) as nat);
+    assert(abal(h0.l, h0.w.this) >= 0);
+    if steps.len() == 0 {
+    } else {
+        let pre = steps.drop_last();
+        lemma_vhistory(h0, pre);
+        let h1 = vrun(h0, pre);
+        lemma_vstep(h1, steps.last());
+        let h2 = vrun(h0, steps);
+        lemma_rate_trans(abal(h0.l, h0.w.this) + 1, virt_shares(h0.w), abal(h1.l, h1.w.this) + 1, virt_shares(h1.w),
+                         abal(h2.l, h2.w.this) + 1, virt_shares(h2.w));
+    }
 }
